@@ -331,6 +331,10 @@ def invpair_residue(prog):
                     n += 1
                     if not g.path.endswith("PartialFNVHash::update_by_byte"):
                         return False, "state also written in %s" % g.short
+                    v = canon(strip(Sym(g).rvalue(s["rv"])))
+                    if "FNV_TABLE" not in v or not re.search(r"FNV_TABLE[^\[]*\[.*\]\[.*\]", v):
+                        # (with opt-reduce-fnv-table the state keeps all 8 bits and value() masks on read: the belief would be false)
+                        return False, "update_by_byte stores %s, not an entry of FNV_TABLE: the state is not confined to 6 bits in this configuration" % v[:100]
         return n >= 1, "the state is only written by update_by_byte from FNV_TABLE (entries < 64 by SA-DATA) or is FNV_HASH_INIT"
 
     def side_sealed_sizes(prog, f, sy, blk):
